@@ -127,7 +127,7 @@ class Gen:
         elif base == "character":
             ts["len"] = ch.weighted([(2, None), (4, ch.choice(["10", "5", "80"])), (2, "*" if for_arg else "20"),
                                      (1, "len_" if False else "3")] +
-                                    ([(2, ch.choice(["max(2, 3)", "2*4", "merge(3, 5, 1 < 2)", "8/2", "min(4, 6, 8)"]))]
+                                    ([(2, ch.choice(["max(2, 3)", "2*4", "merge(3, 5, 1 < 2)", "8/2", "min(4, 6, 8)", "len('abcd')"]))]
                                      if "len_expr" not in self.cfg.get("excl", ()) else []))
             if ch.bool(1, 8):
                 ts["kind"] = "1"
